@@ -4,6 +4,7 @@ import Genshi.Model.XmlSer
 import Genshi.Model.XmlReader
 import Genshi.Model.XmlParser
 import Genshi.Model.XmlSpec
+import Genshi.Gen.Parse
 namespace Driver.C02
 open Genshi Genshi.Xml Genshi.Sexp
 
@@ -23,6 +24,12 @@ open Genshi Genshi.Xml Genshi.Sexp
     reparse <text>                     -> ( ok events-after-EmptyTagFilter ) | N   (spec-side parse)
     coalesce <stream>                  -> stream
     qname <text>                       -> ( ns loc )
+    cbs <callbacks>                    -> ( T|F stream )   XMLParser's layer over expat: `_handle_*` + `_coalesce`;
+                                          F: an undefined entity ended the parse.  Callbacks:
+                                          ( SE name ( ( k v ) ... ) ) ( EE name ) ( D text ) ( XD v enc|N sa )
+                                          ( DT name sysid|N pubid|N ) ( NS pfx|N uri|N ) ( ENS pfx|N ) SC EC
+                                          ( PI t d ) ( C s ) ( O text )
+    et <tree>                          -> stream   `ET(element)`; tree = ( tag ( ( k v ) ... ) text|N ( kids ) tail|N )
   <pref> = ( ( uri prefix ) ... ), <ranges> = ( ( lo hi ) ... )
 -/
 
@@ -59,6 +66,38 @@ def ranges? : Sexp → Option (List (Nat × Nat))
   | .list xs => xs.mapM fun
       | .list [a, b] => do let a ← a.toNat?; let b ← b.toNat?; pure (a, b)
       | _ => none
+  | _ => none
+
+def cb? : Sexp → Option Cb
+  | .list [.atom "SE", .str n, .list a] => do
+      let a ← a.mapM fun
+        | .list [.str k, .str v] => some (k, v)
+        | _ => none
+      pure (.startEl n a)
+  | .list [.atom "EE", .str n] => some (.endEl n)
+  | .list [.atom "D", .str t] => some (.data t)
+  | .list [.atom "XD", .str v, e, s] => do let e ← optStr? e; let s ← s.toInt?; pure (.xmlDecl v e s)
+  | .list [.atom "DT", .str n, sy, pu] => do let sy ← optStr? sy; let pu ← optStr? pu; pure (.doctype n sy pu)
+  | .list [.atom "NS", p, u] => do let p ← optStr? p; let u ← optStr? u; pure (.startNs p u)
+  | .list [.atom "ENS", p] => do let p ← optStr? p; pure (.endNs p)
+  | .atom "SC" => some .startCdata
+  | .atom "EC" => some .endCdata
+  | .list [.atom "PI", .str t, .str d] => some (.pi t d)
+  | .list [.atom "C", .str t] => some (.comment t)
+  | .list [.atom "O", .str t] => some (.other t)
+  | _ => none
+
+/-- `entities.name2codepoint` as extracted from genshi/input.py -/
+def entityOf (n : Str) : Option Char := (Genshi.Gen.Parse.entities.lookup n).map Char.ofNat
+
+partial def etree? : Sexp → Option ETree
+  | .list [.str tag, .list a, text, .list kids, tail] => do
+      let a ← a.mapM fun
+        | .list [.str k, .str v] => some (k, v)
+        | _ => none
+      let text ← optStr? text; let tail ← optStr? tail
+      let kids ← kids.mapM etree?
+      pure (.node tag a text kids tail)
   | _ => none
 
 def okList (f : α → Sexp) : Option (List α) → Sexp
@@ -127,18 +166,37 @@ def handle : List Sexp → Option Sexp
              | some xs2 => decide (serRun SerSt.init (flatten p xs2) = some out)
              | none => false)
         | none => false
+      -- the same through the real parser chain (`parseSource`): ser_idempotent_builder_source /
+      -- ser_idempotent_parsed_text_source, side condition `noStartEndX`
+      let inSrc := (inBT && noStartEndX (mergeX xs)) || (inPT && noStartEndX xs)
+      let srcHolds := match serRun SerSt.init (flatten p xs) with
+        | some out =>
+            (match parseSource (encodeText ascii out) with
+             | some xs2 => decide (serRun SerSt.init (flatten p xs2) = some out)
+             | none => false)
+        | none => false
       pure (.list [ofBool inDom, ofBool holds, ofBool inText, ofBool textHolds, ofBool inAscii, ofBool asciiHolds,
                    ofBool inIdem, ofBool idemHolds, ofBool inInput, ofBool inputHolds,
-                   ofBool inB, ofBool bHolds, ofBool inBT, ofBool inPT, ofBool textIdemHolds])
+                   ofBool inB, ofBool bHolds, ofBool inBT, ofBool inPT, ofBool textIdemHolds,
+                   ofBool inSrc, ofBool srcHolds])
   | [.atom "reparse", .str t] =>
       -- what XMLParser + EmptyTagFilter deliver for this text, according to the specification side
-      match parseText t with
-      | some xs => some (.list [.atom "ok", .list (xs.map xev)])
+      -- `parseSource` = `parseText` + `<a></a>` read as `<a/>`; `agree`: the two give the same answer on this
+      -- text (they must whenever no start tag is directly followed by an end tag: `parseSource_eq_parseText`)
+      match parseSource t with
+      | some xs => some (.list [.atom "ok", .list (xs.map xev), ofBool (decide (parseText t = some xs))])
       | none => some (.atom "N")
   | [.atom "coalesce", s] => do
       let s ← streamOfSexp? s
       pure (streamToSexp (coalesce s))
   | [.atom "qname", .str t] => some (qnameOf t).toSexp
+  | [.atom "cbs", .list cs] => do
+      let cs ← cs.mapM cb?
+      let (es, ok) := parseCbs entityOf cs
+      pure (.list [ofBool ok, streamToSexp es])
+  | [.atom "et", t] => do
+      let t ← etree? t
+      pure (streamToSexp (etStream t))
   | _ => none
 
 end Driver.C02
